@@ -45,7 +45,7 @@ def run(*activities: Coroutine, start: float = 0, till: float = None):
     if till is not None:
         async def root(_activities=activities, _till=till):
             try:
-                async with until(time == _till) as scope:
+                async with until(time >= _till) as scope:
                     for activity in _activities:
                         scope.do(activity)
             except Concurrent as failure:
